@@ -23,6 +23,7 @@ from gallia.services.uds.core.constants import UDSErrorCodes
 
 from harness import tlc
 from harness.c03_gen import (
+    HAS_SF,
     ReqCase,
     build_requests,
     families,
@@ -255,14 +256,24 @@ def run(tier: str, seed: int) -> Report:
             via = "e2e" if v.endswith("@e2e") else "parse_pdu"
             clause = v.removesuffix("@e2e")
             got = c["e"] if via == "e2e" else c["p"]
-            rep.violate(clause, {"kind": c["kind"], "reply": c["label"].removeprefix("mc:"), "got": got, "via": via,
-                                 "contract_class": cl},
+            r = c["reply"]
+            head = "7f" if r[0] == 0x7F else r[:2].hex() if (r[0] - 0x40) & 0xFF in HAS_SF and len(r) > 1 else r[:1].hex()
+            rep.violate(clause, {"kind": c["kind"], "reply": c["label"].removeprefix("mc:"), "reply_head": head,
+                                 "got": got, "via": via, "contract_class": cl},
                         {"req": c["req"].hex(), "raw": c["raw"], "reply": c["reply"].hex(), "ctor": c["ctor"],
                          "parse_pdu": c["p"], "e2e": c["e"], "python": c["pyclass"], "map": c["map"]})
         elif c["design"] is not None and c["design"] != c["p"]:
             drift += 1
             rep.drift.append({"req": c["req"].hex(), "raw": c["raw"], "reply": c["reply"].hex(),
                               "design": c["design"], "code": c["p"], "contract_class": cl})
+    # one representative of every distinct (clause, outcome, reply head, path) first: the replay file keeps
+    # only the first 50 violations and must not be filled by a single defect
+    firsts, rest, seen_groups = [], [], set()
+    for viol in rep.violations:
+        g = (viol.clause, viol.sig.get("got"), viol.sig.get("reply_head"), viol.sig.get("via"))
+        (rest if g in seen_groups else firsts).append(viol)
+        seen_groups.add(g)
+    rep.violations[:] = firsts + rest
     rep.extra["contract_classes"] = dict(sorted(by_class.items()))
     rep.extra["unspecified"] = sum(n for k, n in by_class.items() if k in UNSPECIFIED_CLASSES)
     rep.extra["spec_to_code_replayed"] = len(mc_cases)
@@ -295,16 +306,24 @@ def run(tier: str, seed: int) -> Report:
                     "family": c["label"], "parse_pdu": c["p"], "request()": c["e"],
                     "contract_class": verdicts[c["id"]][1], "verdict": verdicts[c["id"]][0]})
     # ---- 5. binding self-tests
-    good = [c for c in cases if verdicts[c["id"]] == ("ok", "Genuine") and c["p"] == "Accept" and len(c["reply"]) > 2
+    # (seeds are chosen by what the code did and the contract class, not by the final verdict, so that a
+    #  tree full of violations still gets its VIOLATION instead of a machinery failure)
+    good = [c for c in cases if verdicts[c["id"]][1] == "Genuine" and c["p"] == "Accept" and len(c["reply"]) > 2
             and c["req"][0] == 0x22 and not c["raw"]]
-    goodneg = [c for c in cases if verdicts[c["id"]] == ("ok", "NegGenuine") and c["p"] == "Accept"]
-    foreign = [c for c in cases if verdicts[c["id"]] == ("ok", "PosOther")]
+    goodneg = [c for c in cases if verdicts[c["id"]][1] == "NegGenuine" and c["p"] == "Accept"
+               and c["map"] == c["reply"][2]]
+    foreign = [c for c in cases if verdicts[c["id"]][1] == "PosOther" and c["p"] == "Mismatch"]
     if not good or not goodneg or not foreign:
+        if rep.violations:
+            rep.extra["binding_selftest"] = "skipped: the tree under test accepts no genuine / refuses no foreign reply"
+            rep.extra["phase_s"] = phases
+            return rep
         raise Machinery("no accepted genuine / negative / foreign case to run the binding self-test on")
-    t1 = dict(good[0], id=0, p="Mismatch")                                 # outcome field corrupted
-    t2 = dict(good[0], id=1, reply=good[0]["reply"][:1] + bytes([good[0]["reply"][1] ^ 1]) + good[0]["reply"][2:])
-    t3 = dict(goodneg[0], id=2, map=(goodneg[0]["map"] + 1) % 256)         # wrong exception class
-    t4 = dict(foreign[0], id=3, e="Accept")                                # stale reply became a result end to end
+    t1 = dict(good[0], id=0, p="Mismatch", e="NA", map=-2)                 # outcome field corrupted
+    t2 = dict(good[0], id=1, e="NA", map=-2,
+              reply=good[0]["reply"][:1] + bytes([good[0]["reply"][1] ^ 1]) + good[0]["reply"][2:])
+    t3 = dict(goodneg[0], id=2, e="NA", map=(goodneg[0]["map"] + 1) % 256)  # wrong exception class
+    t4 = dict(foreign[0], id=3, e="Accept", map=-2)                        # stale reply became a result end to end
     muts = []
     for i, c in enumerate(rnd.sample(cases, 60)):
         obj = rebuild(c["ctor"])
